@@ -3723,8 +3723,14 @@ class FuncSorted(ValueFunc):
                     .addArg(arg_name(cmp, 0, pos), v)
                     .addArg(arg_name(cmp, 1, pos), v2)
                 )
-                comparison = cmp.execute(cmpargs, env, pos).value
-                if comparison < 0:
+                comparison = cmp.execute(cmpargs, env, pos)
+                if not comparison.isNumerical():
+                    raise CklRuntimeError(
+                        ValueString("ERROR"),
+                        "cmp must return a number but got " + comparison.type(),
+                        pos,
+                    )
+                if comparison.value < 0:
                     temp = result[j + 1]
                     result[j + 1] = result[j]
                     result[j] = temp
